@@ -463,16 +463,24 @@ pub struct MatchCase {
     pub features: Vec<String>,
 }
 
-pub fn match_case(c: &mut Chooser) -> MatchCase {
+/// (plain variable, depth-1 ellipsis variable) of a clause, for the combined sub-template
+/// `((plain each) ...)`
+fn combined(vars: &[(String, usize)]) -> Option<(String, String)> {
+    let s = vars.iter().find(|(_, d)| *d == 0)?;
+    let e = vars.iter().find(|(_, d)| *d == 1)?;
+    Some((s.0.clone(), e.0.clone()))
+}
+
+fn gen_macro(c: &mut Chooser, name: &str, features: &mut Vec<String>) -> (String, Vec<Pat>) {
     let nclauses = 1 + c.below(3);
     let mut clauses: Vec<Pat> = vec![];
-    let mut features = vec![];
+    // variable names restart at p1 for every macro: two macros of one case share spellings
     let mut next = 0usize;
     for _ in 0..nclauses {
         let p = gen_pat(c, 3, &mut next, true);
         clauses.push(p);
     }
-    let mut def = String::from("(define-syntax m (syntax-rules (=> else in)");
+    let mut def = format!("(define-syntax {} (syntax-rules (=> else in)", name);
     for (ci, p) in clauses.iter().enumerate() {
         let Pat::List(items, ell, tail) = p else { unreachable!() };
         // the macro keyword position
@@ -489,7 +497,12 @@ pub fn match_case(c: &mut Chooser) -> MatchCase {
         };
         let mut vars = vec![];
         p.vars(0, &mut vars);
-        let tpl: Vec<String> = vars.iter().map(|(v, d)| template_for(v, *d)).collect();
+        let mut tpl: Vec<String> = vars.iter().map(|(v, d)| template_for(v, *d)).collect();
+        if let Some((s, e)) = combined(&vars) {
+            // a plain variable used inside the sub-template of an ellipsis variable
+            tpl.push(format!("(({} {}) ...)", s, e));
+            features.push("plain-variable-inside-ellipsis-template".to_string());
+        }
         def.push_str(&format!("\n  ({} (quote (clause{} {})))", pat_text, ci, tpl.join(" ")));
         if ell.is_some() {
             features.push("ellipsis".to_string());
@@ -510,23 +523,19 @@ pub fn match_case(c: &mut Chooser) -> MatchCase {
         }
     }
     def.push_str("))");
-    let mut uses = vec![];
-    for _ in 0..(2 + c.below(4)) {
+    (def, clauses)
+}
+
+fn gen_uses(c: &mut Chooser, name: &str, clauses: &[Pat], features: &mut Vec<String>, uses: &mut Vec<(String, Option<String>)>) {
+    for _ in 0..(2 + c.below(3)) {
         let ci = c.below(clauses.len());
         let mut input = instantiate(&clauses[ci], c);
         if c.chance(1, 3) {
             input = perturb(&input, c);
         }
-        // (m . input)
-        let text = match &input {
-            Sx::List(xs) => format!("(m{})", xs.iter().map(|x| format!(" {}", x.write())).collect::<String>()),
-            Sx::Dotted(xs, t) => format!("(m{} . {})", xs.iter().map(|x| format!(" {}", x.write())).collect::<String>(), t.write()),
-            other => format!("(m . {})", other.write()),
-        };
         // a dotted macro use is not an expression every reader accepts: keep proper uses only
-        if !matches!(input, Sx::List(_)) {
-            continue;
-        }
+        let Sx::List(xs) = &input else { continue };
+        let text = format!("({}{})", name, xs.iter().map(|x| format!(" {}", x.write())).collect::<String>());
         let mut expected = None;
         for (k, p) in clauses.iter().enumerate() {
             let mut env = vec![];
@@ -534,9 +543,18 @@ pub fn match_case(c: &mut Chooser) -> MatchCase {
                 let mut vars = vec![];
                 p.vars(0, &mut vars);
                 let mut out = vec![Sx::Sym(format!("clause{}", k))];
-                for (v, _) in vars {
-                    let b = env.iter().find(|(n, _)| *n == v).map(|(_, b)| b.clone()).unwrap();
+                for (v, _) in &vars {
+                    let b = env.iter().find(|(n, _)| n == v).map(|(_, b)| b.clone()).unwrap();
                     out.push(bind_to_sx(&b));
+                }
+                if let Some((sv, ev)) = combined(&vars) {
+                    let sb = bind_to_sx(&env.iter().find(|(n, _)| *n == sv).unwrap().1);
+                    let eb = env.iter().find(|(n, _)| *n == ev).unwrap().1.clone();
+                    let items = match eb {
+                        Bind::Many(v) => v,
+                        one => vec![one],
+                    };
+                    out.push(Sx::List(items.iter().map(|b| Sx::List(vec![sb.clone(), bind_to_sx(b)])).collect()));
                 }
                 expected = Some(Sx::List(out).canon());
                 break;
@@ -547,7 +565,18 @@ pub fn match_case(c: &mut Chooser) -> MatchCase {
         }
         uses.push((text, expected));
     }
+}
+
+pub fn match_case(c: &mut Chooser) -> MatchCase {
+    let mut features = vec![];
+    let (def1, clauses1) = gen_macro(c, "m", &mut features);
+    // a second macro whose pattern variables are spelled like the first one's, in other roles
+    let (def2, clauses2) = gen_macro(c, "m2", &mut features);
+    let mut uses = vec![];
+    gen_uses(c, "m", &clauses1, &mut features, &mut uses);
+    gen_uses(c, "m2", &clauses2, &mut features, &mut uses);
+    gen_uses(c, "m", &clauses1, &mut features, &mut uses);
     features.sort();
     features.dedup();
-    MatchCase { definition: def, uses, features }
+    MatchCase { definition: format!("{}\n{}", def1, def2), uses, features }
 }
